@@ -16,6 +16,8 @@ import (
 	"errors"
 	"fmt"
 	"math"
+	"path/filepath"
+	"runtime"
 	"sort"
 	"strconv"
 	"strings"
@@ -610,6 +612,8 @@ func (r result) answer() string {
 
 var out *common.Out
 var notedInternal bool
+var maxAlloc uint64
+var maxAllocLine string
 
 // runLine: the single path every case takes (generated or replayed).
 func runLine(line string, tags []string) {
@@ -635,7 +639,29 @@ func runLine(line string, tags []string) {
 	if back := fromPB(req, c.cfg, c.cur).line(); back != line {
 		panic("case line is not a wire-level fixpoint:\n " + line + "\n " + back)
 	}
+	measure := len(c.mods) >= 13 || out.N%16 == 0
+	var m0 runtime.MemStats
+	if measure {
+		runtime.ReadMemStats(&m0)
+	}
 	r := runGuarded(c, req)
+	if measure {
+		var m1 runtime.MemStats
+		runtime.ReadMemStats(&m1)
+		d := m1.TotalAlloc - m0.TotalAlloc
+		if d > maxAlloc {
+			maxAlloc, maxAllocLine = d, line
+		}
+		out.Count("alloc-measured")
+		// 512 MiB on top of what the request itself carries (binaries are re-read once per module hash)
+		code := uint64(0)
+		for _, b := range c.bins {
+			code += uint64(b.n)
+		}
+		if d > 512<<20+code*uint64(len(c.mods)+1)*4 && c.cfg.seg != 0 {
+			out.Fail("C17/alloc/"+r.stage, fmt.Sprintf("%d bytes allocated while handling one request", d), line)
+		}
+	}
 	out.Case(line, r.answer(), len(c.mods) >= 2)
 	out.Count("outcome:" + r.class + "@" + r.stage)
 	if r.class == "error" {
@@ -1502,11 +1528,20 @@ func main() {
 	out.Rule = "structure-aware wire-level requests: valid DAG skeletons (1..12 modules, sometimes up to 105) of maps/stores/block indexes with filters, params, sources, init blocks; 0..3 seeded mutations out of the listed classes (gen:* counters), Go-only shapes pushed through the encoder, an exhaustive family of all 2-module requests over a small alphabet; every request goes through proto.Marshal/Unmarshal; non-trivial = at least 2 modules; distinct by case line"
 	defer out.Finish()
 
+	t2Dir = filepath.Join(o.Out, "t2")
 	if lines := o.ReplayLines(); lines != nil {
 		for _, l := range lines {
-			runLine(l, []string{"replay"})
+			if strings.HasPrefix(l, "T2 ") {
+				runT2Line(l, []string{"replay"})
+			} else {
+				runLine(l, []string{"replay"})
+			}
 		}
 		return
 	}
 	generate(o)
+	if len(maxAllocLine) > 300 {
+		maxAllocLine = maxAllocLine[:300] + "..."
+	}
+	out.Notes = append(out.Notes, fmt.Sprintf("largest allocation measured for one request (validation to plan, sampled): %d bytes :: %s", maxAlloc, maxAllocLine))
 }
